@@ -54,7 +54,7 @@ JudgeLife(rec) ==
     LET ops == rec.in.ops
         written[k \in 0..Len(ops)] == IF k = 0 THEN 0 ELSE written[k - 1] + ops[k].n
         Bad(k) == LET st == rec.steps[k] IN
-                  CASE ops[k].op = "w" -> st.err \/ st.n # ops[k].n
+                  CASE ops[k].op \in {"w", "ws"} -> st.err \/ st.n # ops[k].n
                     [] ops[k].op = "s" -> st.sum_is # rec.in.alg \/ st.size # written[k]
                     [] ops[k].op = "e" -> st.sum_is # rec.in.alg \/ st.size # written[k] \/ st.entry_alg # rec.in.alg
         bad == {k \in 1..Len(ops) : Bad(k)}
